@@ -16,6 +16,9 @@ searches use a key of member shape (B C) or a BARE INT key with a key-vs-member 
 each argument by its role (K Q); the drivers check the roles on every comparator call (search: first
 argument the key, second a slot of the array; sort: both arguments elements of the array) and print
 ROLE otherwise; what a search returns must carry the key's id.
+A small-scope block ENUMERATES every history of <= 3 operations (thorough: <= 4 over a sub-alphabet) over an
+alphabet of 26 operations, each selecting a different branch, for both modes, initial capacities 0/1/2 and a
+refusing allocation limit.
 Both APIs are driven: array_list_* (mode d) and json_object_array_* (mode j)."""
 PROP = "C07"
 DOMAIN = "al"
@@ -53,6 +56,57 @@ def gen(rng, tier):
     out = gen_small(rng, n - nbig - nsort)
     out += gen_sortmix(rng, nsort)
     out += gen_big(rng, nbig)
+    out += gen_smallscope(tier)
+    return out
+
+
+# Small-scope exhaustive pass: EVERY history up to a bound over an alphabet in which each operation selects a
+# different branch of arraylist.c / of the json_object_array_* wrappers on arrays of 0..4 elements.
+SMALL_ALPHABET = [
+    "A4",                          # append (grows 0->1->2->4 from capacity 0/1/2: "max >= size" incl. the just-fits case)
+    "An",                          # append NULL
+    "P0,3",                        # put inside (releases the overwritten element) / at the end of an empty array
+    "P2,1",                        # put beyond the end: NULL gap fill, growth to max(2*size, idx+1)
+    "I0,2",                        # insert inside: shift of the whole contents; on an empty array = put
+    "I1,n",                        # insert NULL inside / at / beyond the end
+    "D0,1",                        # delete the first element (release, shift) / refused on an empty array
+    "D1,1",                        # delete the second / refused: idx >= length
+    "D0,0",                        # empty range: accepted iff idx < length
+    "D0,2",                        # range of two / refused: stop > length
+    "D1,18446744073709551615",     # idx + count wraps: the SIZE_MAX guard
+    "H0",                          # shrink to the exact size (0 -> 1 slot), no-op when already exact
+    "H1",                          # shrink / expand to length + 1
+    "S",                           # sort ascending (NULL first)
+    "R",                           # sort descending (NULL last)
+    "K3",                          # search, bare-int key present/absent, key-vs-member comparator
+    "B4",                          # search, member-shaped key
+    "Q1",                          # search by the descending comparator
+    "V0,5",                        # in-place value change of element 0 (NULL / absent: refused by the setter)
+    "G1",                          # read inside / at / past the end
+    "P18446744073709551615,4",     # idx > SIZE_MAX - 1: refused before anything
+    "P2305843009213693951,4",      # idx + 1 > SIZE_MAX / 8: refused by the growth guard
+    "P9,4",                        # far put: new_size = max; refused by the small allocation limit
+    "M3,6",                        # three appends in a row across a capacity edge
+    "a2",                          # append through array_list_* on json_object_get_array()
+    "s",                           # sort through array_list_sort on json_object_get_array()
+]
+# the operations that decide the shape of a fourth step (thorough tier only)
+SMALL_ALPHABET_DEEP = ["A4", "An", "P0,3", "P2,1", "I0,2", "I1,n", "D0,1", "D1,1", "D0,2", "H0", "S", "R", "K3", "V0,5", "a2", "P9,4"]
+
+
+def gen_smallscope(tier):
+    import itertools
+    out = []
+    # (mode, allocation limit, initial capacity); limit 64 = at most 8 slots, and in mode j at most ... the same 8
+    configs = [(m, BIG, i) for m in "dj" for i in (0, 1, 2)] + [(m, 64, 2) for m in "dj"]
+    for mode, limit, init in configs:
+        head = "al %s %d %d " % (mode, limit, init)
+        for ln in (1, 2, 3):
+            for seq in itertools.product(SMALL_ALPHABET, repeat=ln):
+                out.append((head + ";".join(seq), {"kind": "small-scope"}))
+        if tier != "quick":
+            for seq in itertools.product(SMALL_ALPHABET_DEEP, repeat=4):
+                out.append((head + ";".join(seq), {"kind": "small-scope"}))
     return out
 
 
